@@ -39,6 +39,35 @@ Proof.
   - apply (same_tab_trans st (clear_vd st)); [apply clear_vd_same_tab|apply fix_import_same_tab].
 Qed.
 
+(** ... and on a store whose variable-set and count tables are NOT in order, as long as the node table,
+    the unique table and the two operation memo tables are: that is what a call interrupted by a panic
+    leaves behind (nodes and unique-table entries are written together, memo entries only after the
+    recursive call returned; the variable sets and the counts are written last) *)
+Theorem fix_import_repairs_interrupted c st : WFN st -> RescOK st -> ItecOK st ->
+  WF c (fix_import_x true c st) /\ same_tab st (fix_import_x true c st).
+Proof.
+  intros W R I. unfold fix_import_x. split.
+  - destruct (fix_import_shape c (clear_vd st)) as (cs & ->). apply set_counts_WF.
+    destruct (gen_vardeps_frame c (clear_vd st)) as (A1 & A2 & A3 & _ & A5 & A6 & _).
+    constructor.
+    + apply (WFN_nodes_eq st); [rewrite A1|rewrite A2|rewrite A3| ]; try reflexivity. exact W.
+    + apply (RescOK_nodes_eq st); [rewrite A1|rewrite A2|rewrite A6| ]; try reflexivity. exact R.
+    + apply (ItecOK_nodes_eq st); [rewrite A1|rewrite A2|rewrite A5| ]; try reflexivity. exact I.
+    + apply gen_vardeps_VdOK; [apply clear_vd_WFN; exact W|reflexivity].
+  - apply (same_tab_trans st (clear_vd st)); [apply clear_vd_same_tab|apply fix_import_same_tab].
+Qed.
+
+(** the premises are met by a store that is not well-formed: an imported store before the repair step *)
+Lemma interrupted_premises_satisfiable c st : WF c st -> varlist c = true ->
+  let s := import_raw (table_of st) in WFN s /\ RescOK s /\ ItecOK s /\ ~ WF c s.
+Proof.
+  intros [W _ _ _] Hv s. destruct (import_raw_rest (table_of st)) as (_ & _ & _ & Hi & Hr & _).
+  split; [apply import_raw_wfn, W|]. split; [|split].
+  - intros t v b r F. unfold s in F. rewrite Hr, tm_find_empty in F. discriminate.
+  - intros i t e r F. unfold s in F. rewrite Hi, tm_find_empty in F. discriminate.
+  - intros [_ _ _ V]. exact (import_needs_fix c st W Hv V).
+Qed.
+
 Corollary fix_import_repaired_den c st h : WF c st -> h < size st ->
   forall a, den (fix_import_x true c st) h a = den st h a.
 Proof.
@@ -68,4 +97,5 @@ Example fix_import_appending_breaks_a_live_store :
   end.
 Proof. vm_compute. repeat split; discriminate. Qed.
 Print Assumptions fix_import_repaired_wf.
+Print Assumptions fix_import_repairs_interrupted.
 Print Assumptions fix_import_appending_breaks_a_live_store.
